@@ -1,6 +1,9 @@
 package group
 
-import "maps"
+import (
+	"maps"
+	"sync"
+)
 
 // Accessors for the simulator (added through the build overlay; no logic).
 
@@ -8,12 +11,12 @@ var verifPermissionsMap map[string][]string
 
 // VerifReset returns the package to its start-up state.
 func VerifReset() {
-	groups.mu.Lock()
+	// fresh mutexes: tasks abandoned at the end of the previous run may
+	// have been parked with the old ones held
+	groups.mu = sync.Mutex{}
 	groups.groups = nil
-	groups.mu.Unlock()
-	configuration.mu.Lock()
+	configuration.mu = sync.Mutex{}
 	configuration.configuration = nil
-	configuration.mu.Unlock()
 	if verifPermissionsMap == nil {
 		verifPermissionsMap = map[string][]string{}
 		for k, v := range permissionsMap {
